@@ -138,6 +138,22 @@ def correspondence(rep, ctx, ncases=None, oracle_kind="lean"):
         "distinct = distinct (inventory, time) pairs; non-trivial = all (each has at least one radioactive chain member "
         "or checks the stable path)")
     cases = build_cases(rd, gen, ncases)
+    # amounts of exactly zero are legitimate ("non-negative"): the nuclide and its progeny are still part of the result
+    for _ in range(60 if thorough else 12):
+        idxs = [gen.nuclide() for _ in range(gen.r.choice([1, 2, 3]))]
+        contents = {view.names[i]: (0.0 if (k_ == 0 or gen.r.random() < 0.4) else 10.0 ** gen.r.uniform(0, 20)) for k_, i in enumerate(dict.fromkeys(idxs))}
+        t, tu = gen.time_for(list(dict.fromkeys(idxs)))
+        cases.append((contents, "num", t, tu))
+        gen._count("inventory:zero-amounts")
+    # every radionuclide with a half-life below one second as the single parent, at times around (and far below) it —
+    # durations of nanoseconds to milliseconds are ordinary inputs for these
+    for i in gen.radio:
+        if float(view.rate[i]) > 1.0:
+            for mult in (1e-3, 0.05, 1.0):
+                secs = float(mult / view.rate[i])
+                tu = gen.r.choice(["s", "ms", "μs", "ns", "ps"])
+                cases.append(({view.names[i]: 1.0e6}, "num", secs / float(view.unit_s[tu]), tu))
+                gen._count("nuclide:sub-second half-life")
     if thorough:
         for i in gen.radio:
             for mult in (0.01, 1.0, 40.0):
